@@ -79,12 +79,23 @@ RULE = ("histories of 1-12 calls on FFT<f64> objects (two live objects: current 
         "larger, clone / clone_from taken before and after the forward transforms; fft_inv and fft_inv_into), swap, both "
         "objects used further; aliased operands (both operands sub-slices of one allocation: p*p, p*p[..k] for k in "
         "{0,1,len-1,random}, both orders, windows with a common tail / start; multiply, multiply_into, the fft route); "
-        "non-trivial = some product with both lengths >= 2 and at least one negative coefficient.  extra (implementation "
+        "the write-out of the inverse transform on its own (ops RS / RX: fft(v, n), every entry of the spectrum times 2^-sh, "
+        "fft_inv / fft_inv_into on the same or the second object: the nearest integers of v[j] / 2^sh for entries of "
+        "either sign with fractions 0, 1/64, 1/8, 15/64, 1/4, 17/64, 3/8, 7/16, 29/64 on either side of the integer, "
+        "n in {1 (the special case), 2, 4, 8, 16, 32}, sh in {0, 2, 6, 10}, |v| < 2^31, zero / non-zero / shorter / longer "
+        "destinations); non-trivial = some product with both lengths >= 2 and at least one negative coefficient, or a "
+        "rounding case with a negative non-integer entry.  extra (implementation "
         "only, both build profiles): symmetric envelope max^2*max(len) <= 1e12 incl. length ratios up to 2^14 (quick) / 2^20, "
+        "seven sign patterns (among them every coefficient negative), "
         "multiply_into / second object / reuse / over-grown / cloned objects at large n, every coefficient checked modulo "
-        "2^61-1; the crate's PUBLISHED table (rlib_fft::precision, read from the crate) probed at every frontier cell "
+        "2^61-1; the write-out probes again for f64 (n up to 4096 / 65536) and f32 (n <= 64); "
+        "the crate's PUBLISHED table (rlib_fft::precision, read from the crate) probed at every frontier cell "
         "(quick: L <= 3e5, thorough: up to L = 5e6) with lengths (L,L), (L-1,L), (L,L-1), (L-2,L), (L-1,L-1), (L/2+1,L/2+1), "
-        "values [A-back..=A] x [B-back..=B], back in {0,1000}, multiply / multiply_into / fft route, fresh and used objects")
+        "magnitudes [A-back..=A] x [B-back..=B], back in {0,1000}, SIX SIGN MODES that all gate (non-negative, alternating, "
+        "random, all negative, a negated, b negated - the last two make every coefficient negative with the magnitudes "
+        "of the table's own claim), multiply / multiply_into / fft route, fresh and used objects; the (cell, sign mode) "
+        "combinations that fail on the reviewed tree (the four f64 cells whose transposed cell claims less: 5e4 x 5e3, "
+        "1e5 x 1e4, 5e6 x 5e5, 1e7 x 5e6) are statistics with recorded witnesses, reported through known_findings.txt")
 TRUSTED = ["executor harness/crates/c04 (drives rlib_fft::FFT, prints integer outputs in decimal, floats and the hook's twiddle table as bit patterns; "
            "in envelope / published-table mode: its i128 schoolbook reference and its evaluation modulo 2^61-1)",
            "checks/c04.py (case generator, Coq term printer, envelope search driver)",
@@ -93,7 +104,10 @@ TRUSTED = ["executor harness/crates/c04 (drives rlib_fft::FFT, prints integer ou
 ASSUMPTIONS = ["usize/i64 arithmetic modelled without overflow (sizes <= 2^24, |coefficients of the product| < 2^63)",
                "the floating-point rounding-error bound inside the envelope (c04_rounding_partial) is NOT proved; it is "
                "examined by search only (extra: implementation against exact i128 schoolbook convolution and a modular "
-               "evaluation of all coefficients, in the symmetric envelope and at the frontier of the crate's published table)"]
+               "evaluation of all coefficients, in the symmetric envelope and at the frontier of the crate's published table, "
+               "for non-negative operands and five sign modes)",
+               "rounding cases (RS / RX): the fraction of every entry stays 3/64 away from a tie; exact ties of the inverse "
+               "transform are outside the property"]
 
 LENS = [0, 1, 2, 3, 4, 5, 7, 8, 9, 15, 16, 17, 31, 32, 33, 40]
 
@@ -148,6 +162,8 @@ def harness_line(c):
             t += [k] + tok_list(o[1]) + tok_list(o[2]) + [str(o[3])] + tok_list(o[4])
         elif k in ("SW", "C", "CF"):
             t += [k]
+        elif k in ("RS", "RX"):
+            t += [k] + tok_list(o[1]) + [str(o[2]), str(o[3])] + tok_list(o[4])
         elif k == "MA":
             t += ["MA"] + tok_list(o[1]) + [str(x) for x in o[2:6]]
         elif k == "MIA":
@@ -195,6 +211,8 @@ def coq_term(c, obs, profile):
             ops.append("(OInv %s %s %d %s %s)" % (zl(o[1]), zl(o[2]), o[3], zl(o[4]), zl(r)))
         elif k in ("X", "X2"):         # forward transforms on the current object, inverse on the second one
             ops.append("(OInvX %s %s %d %s %s)" % (zl(o[1]), zl(o[2]), o[3], zl(o[4]), zl(r)))
+        elif k in ("RS", "RX"):        # fft, spectrum scaled by 2^-sh, inverse transform (RX: on the second object)
+            ops.append("(%s %s %d %d %s %s)" % ("OInvS" if k == "RS" else "OInvSX", zl(o[1]), o[2], o[3], zl(o[4]), zl(r)))
         elif k == "SW":
             ops.append("OSwap")
         elif k in ("C", "CF"):         # clone() and clone_from(): the same copy in the model
@@ -217,6 +235,7 @@ def alias_slices(o):
 
 
 INV_KINDS = ("V", "V2", "X", "X2")
+ROUND_KINDS = ("RS", "RX")
 ALIAS_KINDS = ("MA", "MIA", "VA")
 
 
@@ -229,12 +248,14 @@ def products(c):
 
 
 def nontrivial(c, obs):
+    if any(o[0] in ROUND_KINDS and any(x < 0 and x % (1 << o[3]) for x in o[1]) for o in c["ops"]):
+        return True
     return any(len(a) >= 2 and len(b) >= 2 and (min(a) < 0 or min(b) < 0) for a, b in products(c))
 
 
 def classify(c, obs):
     ks = {o[0] for o in c["ops"]}
-    kind = ("inv2" if ks & {"X", "X2"} else "alias" if ks & set(ALIAS_KINDS) else "inv" if ks & {"V", "V2"}
+    kind = ("round" if ks & set(ROUND_KINDS) else "inv2" if ks & {"X", "X2"} else "alias" if ks & set(ALIAS_KINDS) else "inv" if ks & {"V", "V2"}
             else ("into" if ks & {"MI", "TI"} else ("fft" if "T" in ks else "mul")))
     if ks & {"C", "CF", "SW"}:
         kind += "+2obj"
@@ -381,6 +402,7 @@ def generate(rng, tier):
         cases.append({"ops": [pre, v, m, ["F"], v, m]})
     cases += gen_two_objects(rng, tier)
     cases += gen_aliased(rng, tier)
+    cases += gen_rounding(rng, tier)
     return cases
 
 
@@ -472,6 +494,55 @@ def gen_aliased(rng, tier):
     return cases
 
 
+# fractions (in 64ths) an entry of a rounding case may have: everything up to 29/64 away from an integer, on both sides,
+# with the quarter (16/64: where a rounding trick that keeps one fraction bit goes wrong) bracketed
+FRAC64 = [0, 1, 8, 15, 16, 17, 24, 28, 29]
+
+
+def round_value(rng, sh, style):
+    """an i32 x whose quotient x / 2^sh is at most 29/64 away from an integer"""
+    q = 1 << sh
+    kmax = ((1 << 31) - 1) // q - 1
+    mag = rng.choice([3, 300, 10 ** 5, 10 ** 6, kmax]) if style != "small" else 3
+    k = rng.range(0, min(mag, kmax))
+    if sh >= 6:
+        f = rng.choice(FRAC64) * (q // 64)
+        if sh > 6 and rng.chance(1, 3):
+            f = rng.range(0, 29 * q // 64)
+    else:
+        f = rng.range(0, 29 * q // 64)
+    x = k * q + (f if rng.chance(1, 2) else -f)
+    if style == "neg" or (style != "pos" and rng.chance(1, 2)):
+        x = -x
+    return x
+
+
+def gen_rounding(rng, tier):
+    """(7) the write-out of the inverse transform on its own: fft(v, n), every entry of the spectrum multiplied by 2^-sh
+    (exact), fft_inv / fft_inv_into.  The inverse transform is handed the spectrum of v[j] / 2^sh and must ADD the nearest
+    integers, for negative and positive entries, whatever the fraction (up to 29/64 on either side), at n = 1 (the
+    special case of fft_inv_into), 2, 4, ... 32, on a fresh / grown / second object."""
+    cases = []
+    ns = [1, 2, 4, 8, 16, 32]
+    reps = 2 if tier == "quick" else 12
+    for n in ns:
+        for sh in (2, 6, 10, 0):
+            for style in ("neg", "pos", "mixed", "small"):
+                for _ in range(reps if sh else 1):
+                    ln = rng.choice([n, n, max(1, n - 1), max(1, n // 2 + 1)])
+                    v = [round_value(rng, sh, style) for _ in range(ln)]
+                    res = rng.choice([[0] * n, [0] * n, dest(rng, n), dest(rng, n + 2), dest(rng, max(n - 1, 0))])
+                    kind = "RX" if rng.chance(1, 4) else "RS"
+                    pre = []
+                    if rng.chance(1, 2):
+                        pre = [mk_op(rng, rng.choice(LENS[1:12]), rng.choice(LENS[1:12]), "M")]
+                        if rng.chance(1, 3):
+                            pre.append(["SW"])
+                    v2 = [round_value(rng, sh, style) for _ in range(ln)]
+                    cases.append({"ops": pre + [[kind, v, n, sh, res], ["RS", v2, n, sh, [0] * n], mk_op(rng, 3, 2, "M")]})
+    return cases
+
+
 def shrink(c):
     out = []
     ops = c["ops"]
@@ -489,6 +560,30 @@ def shrink(c):
                     n = list(o)
                     n[1] = w
                     out.append({"ops": ops[:i] + [n] + ops[i + 1:]})
+            continue
+        if o[0] in ROUND_KINDS:
+            v, sh = o[1], o[3]
+            q = 1 << sh
+            cands = []
+            if o[0] == "RX":
+                cands.append(["RS"] + o[1:])
+            if len(v) > 1:
+                cands += [[o[0], w] + o[2:] for w in (v[:-1], v[1:], v[:len(v) // 2])]
+                for j in range(len(v)):
+                    if v[j] % q:
+                        w = list(v)
+                        w[j] = (v[j] // q) * q          # this entry without its fraction
+                        cands.append([o[0], w] + o[2:])
+            if any(abs(x) >= 4 * q for x in v):
+                # keep every fraction, shrink the integer parts
+                def small(x):
+                    k = (x + q // 2) // q
+                    return max(-3, min(3, k)) * q + (x - k * q)
+                cands.append([o[0], [small(x) for x in v]] + o[2:])
+            if any(o[4]):
+                cands.append(o[:4] + [[0] * len(o[4])])
+            for n in cands:
+                out.append({"ops": ops[:i] + [n] + ops[i + 1:]})
             continue
         if o[0] in ("X", "X2", "V2"):
             # is the second object / the `*=` needed?  the same call as a plain V
@@ -527,7 +622,8 @@ def shrink(c):
 
 # ----------------------------------------------------------------------------- envelope search (implementation only)
 PATTERNS = ["all +max", "a alternating sign, b all +max", "both alternating sign", "random signs, |coef| = max",
-            "uniform in [-max, max]"]
+            "uniform in [-max, max]", "a all -max, b all +max (every coefficient negative)",
+            "a uniform in [0, max], b all -max (every coefficient negative)"]
 ROUTES = ["multiply", "fft + pointwise product + fft_inv", "multiply_into on a non-zero destination",
           "fft, fft on one object, product (*=), fft_inv_into on a non-zero destination on a FRESH second object",
           "one object: multiply(big), multiply(1/8-length prefixes), multiply(big) again",
@@ -547,8 +643,10 @@ def env_configs(tier):
             partners = sorted({L, max(1, L - 1), max(1, L // 2), max(1, L // 2 + 1), max(1, (3 * L) // 4)})
             for other in partners:
                 mx = min(10 ** 6, math.isqrt(10 ** 12 // L))      # symmetric envelope: max^2 * max(len) <= 1e12
-                for pat in range(5):
-                    for (la, lb) in {(L, other), (other, L)}:
+                for pat in range(7):
+                    if pat >= 5 and other not in (L, max(1, L // 2)):
+                        continue
+                    for (la, lb) in sorted({(L, other), (other, L)}):
                         seed += 1
                         cfgs.append(("f64", la, lb, mx, pat, seed, samples, 0))
                         if k >= 10 and la == L and other in (L, max(1, L // 2)):
@@ -572,7 +670,7 @@ def env_configs(tier):
         for L in ((1 << k) - 1, 1 << k, (1 << k) + 1):
             mx = min(10 ** 6, math.isqrt(10 ** 12 // L))
             for route in (2, 3, 4, 5, 6):
-                for pat in (0, 3, 4):
+                for pat in (0, 3, 4, 5, 6):
                     seed += 1
                     other = (L, max(1, L - 1), max(1, L // 2 + 1))[seed % 3]
                     cfgs.append(("f64", L, other, mx, pat, seed, samples, route))
@@ -583,10 +681,10 @@ def env_configs(tier):
         if mx < 1:
             continue
         for other in sorted({L, max(1, L // 2), max(1, L - 1)}):
-            for pat in range(5):
+            for pat in range(7):
                 seed += 1
                 cfgs.append(("f32", L, other, mx, pat, seed, samples, 0))
-                if pat in (0, 3):
+                if pat in (0, 3, 5):
                     for route in (1, 2, 3, 4, 6):
                         seed += 1
                         cfgs.append(("f32", L, other, mx, pat, seed, samples, route))
@@ -624,7 +722,8 @@ def run_parallel(binp, lines, workers, costs=None):
 
 # ----------------------------------------------------------------------------- the PUBLISHED table (rlib_fft::precision)
 LMODES = ["(L, L)", "(L-1, L)", "(L, L-1)", "(L-2, L)", "(L-1, L-1)", "(L/2+1, L/2+1)"]
-SIGNS = ["non-negative (the table's claim)", "alternating signs", "random signs", "all negative"]
+SIGNS = ["non-negative (the table's claim)", "alternating signs", "random signs", "all negative (non-negative product)",
+         "a negated, b as in the claim (every coefficient negative)", "a as in the claim, b negated (every coefficient negative)"]
 P_ROUTES = ["multiply", "multiply_into on a non-zero destination (length tot or tot+3)", "fft, fft, pointwise product, fft_inv"]
 PRES = ["fresh object", "after a small product on the same object", "after update_n(2n)"]
 BACKS = [(0, 0), (0, 1000), (1000, 0), (1000, 1000)]
@@ -633,7 +732,39 @@ BACKS = [(0, 0), (0, 1000), (1000, 0), (1000, 1000)]
 # reported as statistics; they gate only through known_findings.txt (key "published-cell-<A>-<B>"), never silently.
 #   f64 (5e6, 5e5, L = 100): 32 of 1800 random probes wrong (e.g. `P f64 13 11 0 0 0 0 1000 0 2 221075 300`: 2 of 199
 #   coefficients off by one); the crate's own test passes only for the values its seed 42 happens to draw.
-MARGINAL_CELLS = {("f64", 5000000, 500000)}
+#   f64 (1e5, 1e4, L = 1e5): 1 of 464 random probes wrong (`P f64 10 8 1 0 0 1000 0 0 0 903461 300`: lengths 99999 x
+#   100000, a in [99000 ..= 100000], b = [10000; 100000]: 1 of 199998 coefficients off by one, index 91603).
+MARGINAL_CELLS = {("f64", 5000000, 500000), ("f64", 100000, 10000)}
+# The property promises the same for negative coefficients, so the sign modes 1-5 GATE on every frontier cell - except
+# the (cell, sign mode) combinations that already fail on the reviewed tree.  Measured on /repo 00e0730 (all six sign
+# modes, every frontier cell, six length modes, four value windows, three routes; 432-1056 random probes per combination
+# up to L = 1e5, 96-672 up to L = 5e5, 16-96 above): every failing combination lies in one of the FOUR cells whose
+# transposed cell claims LESS (the claim depends on which operand is packed into the real part), namely
+#   f64 (5e6, 5e5, L = 100): alternating 27/432, all negative 7/432, a negated 100/432, b negated 103/432 (non-negative 11/432)
+#   f64 (1e5, 1e4, L = 1e5): alternating 2/528, a negated 74/432, b negated 67/432 (non-negative 1/528; all negative is
+#                            bit for bit the non-negative computation: -z transforms to -Z and the product is the same)
+#   f64 (5e4, 5e3, L = 3e5): alternating 1/336, a negated 13/96, b negated 12/96 (non-negative 0/240)
+#   f64 (1e7, 5e6, L = 10):  a negated / b negated 12/432 each, among them the constant vectors themselves
+#                            (multiply([-1e7; 10], [5e6; 10]) is off by one at coefficient 10); the other modes 0/432
+# and random signs never failed anywhere (0 of 19864).  Every other cell: 0 failures in every mode.  The listed
+# combinations are statistics and are reported through known_findings.txt (key "published-cell-<A>-<B>-signs"); a
+# mode that was never seen failing on a listed cell still gates there.
+SIGN_MARGINAL = {
+    ("f64", 5000000, 500000): {1, 3, 4, 5},
+    ("f64", 100000, 10000): {1, 3, 4, 5},
+    ("f64", 50000, 5000): {1, 4, 5},
+    ("f64", 10000000, 5000000): {4, 5},
+}
+# executor lines that fail on the reviewed tree: run on every run, so that a listed finding is re-confirmed (and
+# announced) by every run and not only when one of the run's own probes happens to hit it
+WITNESS = {
+    "published-cell-5000000-500000": ["P f64 13 11 0 0 0 1000 0 0 0 14836 300"],
+    "published-cell-100000-10000": ["P f64 10 8 1 0 0 1000 0 0 0 903461 300"],
+    "published-cell-5000000-500000-signs": ["P f64 13 11 0 0 4 0 1000 0 0 912115 300"],
+    "published-cell-100000-10000-signs": ["P f64 10 8 0 0 4 0 1000 0 0 5001750 300"],
+    "published-cell-50000-5000-signs": ["P f64 9 7 1 0 4 0 0 0 1 6001753 300"],
+    "published-cell-10000000-5000000-signs": ["P f64 14 13 0 0 4 0 0 0 0 912961 300"],
+}
 
 
 def parse_table(line):
@@ -662,18 +793,22 @@ def frontier(rows):
 
 def table_probes(tier, ty, vals, rows):
     """-> list of (gate, cfg).  cfg = (ty, ai, bi, lmode, swap, sign, aback, bback, route, pre, seed, samples).
-    gate: the probe lies inside what the table claims, read monotonically in the length: non-negative values,
+    gate: the probe lies inside what the table claims, read monotonically in the length and - as the property does -
+    for coefficients of either sign: values of magnitude [A-back ..= A] x [B-back ..= B] in one of the six sign modes,
     lengths (L,L), (L-1,L), (L,L-1), (L-2,L), (L-1,L-1), (L/2+1,L/2+1), the operand with bound A first - or the
     operands exchanged when the TRANSPOSED cell claims at least the same length; multiply, multiply_into, the fft route;
-    fresh or used object.  Everything else (mixed signs, exchanged operands of an asymmetric cell) is statistics."""
+    fresh or used object.  Statistics only: exchanged operands of an asymmetric cell, the (cell, sign mode) combinations
+    that fail on the reviewed tree (MARGINAL_CELLS, SIGN_MARGINAL), the fft route above L = 3e5."""
     out = []
     seed = 7000
+    sseed = 40000
     for (ai, bi, L) in frontier(rows):
         if tier == "quick" and L > 300000:
             continue
         big = L > 10000
         huge = L > 300000
-        marginal = (ty, vals[ai], vals[bi]) in MARGINAL_CELLS
+        cellkey = (ty, vals[ai], vals[bi])
+        marginal = cellkey in MARGINAL_CELLS
         swaps = [0] + ([1] if rows[bi][ai] >= L else [])
         grid = []
         if not big:
@@ -702,17 +837,88 @@ def table_probes(tier, ty, vals, rows):
                 # = 5000: 360 of 9999999 coefficients off by one through fft/fft/product/fft_inv, multiply exact)
                 gate = not marginal and not (huge and route == 2)
                 out.append((gate, (ty, ai, bi, lmode, swap, 0, bk[0], bk[1], route, pre, seed, 300)))
-        # statistics: mixed signs, and the exchanged operands where the transposed cell claims less
-        stat = [(lmode, sign, 0, route) for sign in (1, 2, 3) for lmode in ((0, 1, 2) if not big else (0,))
-                for route in ((0, 1, 2) if not big else (0,))]
+        # the sign modes: negative coefficients are inside the property ("for positive and negative coefficients alike")
+        sgrid = []
+        if not big:
+            for rep in range(1 if tier == "quick" else 3):
+                sgrid += [(lmode, sign, bk, route, (lmode + route + sign + rep) % 3) for sign in (1, 2, 3, 4, 5) for lmode in (0, 1, 2)
+                          for route in (0, 1, 2) for bk in BACKS]
+                sgrid += [(lmode, sign, BACKS[(lmode + sign) % 4], (lmode + sign) % 3, 0) for sign in (1, 4, 5) for lmode in (3, 4, 5)]
+        elif not huge:
+            for sign in (1, 2, 3, 4, 5):
+                sgrid += [(0, sign, BACKS[0], 0, 0), ((sign % 2) + 1, sign, BACKS[3], 1, sign % 3)]
+                if sign in (1, 4, 5):
+                    sgrid += [(0, sign, BACKS[sign % 4], 2, 0)]
+                if tier == "thorough":
+                    sgrid += [(lmode, sign, bk, route, (lmode + route) % 3) for lmode in (0, 1, 2, 4) for bk in BACKS for route in (0, 1, 2)]
+        else:
+            sgrid += [(0, sign, BACKS[0] if sign != 1 else BACKS[3], 0, 0) for sign in (1, 4, 5)]
+        for n_, (lmode, sign, bk, route, pre) in enumerate(sgrid):
+            sseed += 1
+            swap = n_ % 2 if 1 in swaps else 0
+            gate = sign not in SIGN_MARGINAL.get(cellkey, ()) and not (huge and route == 2)
+            out.append((gate, (ty, ai, bi, lmode, swap, sign, bk[0], bk[1], route, pre, sseed, 300)))
+        # statistics: the exchanged operands where the transposed cell claims less
+        stat = []
         if 1 not in swaps:
             stat += [(lmode, 0, 1, route) for lmode in ((0, 1, 2, 3, 4) if not big else (0, 1)) for route in ((0, 1) if not big else (0,))]
         if huge:
-            stat = stat[:1] + stat[-1:]
+            stat = stat[-1:]
         for (lmode, sign, swap, route) in stat:
             for bk in (BACKS if not big else BACKS[:1]):
-                seed += 1
-                out.append((False, (ty, ai, bi, lmode, swap, sign, bk[0], bk[1], route, 0, seed, 300)))
+                sseed += 1
+                out.append((False, (ty, ai, bi, lmode, swap, sign, bk[0], bk[1], route, 0, sseed, 300)))
+    return out
+
+
+def witness_probes(ty, vals, rows, tier):
+    """the recorded witnesses of the listed findings as statistics probes (cells beyond the tier's length limit are left out)"""
+    out = []
+    for key, lines in sorted(WITNESS.items()):
+        for l in lines:
+            t = l.split()
+            if t[1] != ty:
+                continue
+            c = (t[1],) + tuple(int(x) for x in t[2:])
+            if tier == "quick" and rows[c[1]][c[2]] > 300000:
+                continue
+            out.append((False, c))
+    return out
+
+
+def writeout_configs(tier):
+    """the write-out of the inverse transform on its own (executor mode R): fft(v, n), spectrum times 2^-sh (exact),
+    fft_inv / fft_inv_into.  -> list of (line, float type, v, n, sh, into)"""
+    import random
+    rnd = random.Random(40417)
+    out = []
+    for ty in ("f64", "f32"):
+        if ty == "f64":
+            ns = [1, 2, 4, 8, 16, 64, 256, 1024, 4096] + ([1 << 14, 1 << 16] if tier == "thorough" else [])
+        else:
+            ns = [1, 2, 4, 8, 16, 32, 64]
+        i = 0
+        for n in ns:
+            for sh in (2, 6, 10):
+                q = 1 << sh
+                if ty == "f64":
+                    kmax = ((1 << 31) - 1) // q - 1
+                else:
+                    kmax = 2000 if n >= 8 else min(100000, ((1 << 24) >> sh) - 1)
+                for style in ("neg", "pos", "mixed"):
+                    for into in (0, 1, 2):
+                        i += 1
+                        ln = rnd.choice([n, n, max(1, n - 1), max(1, n // 2 + 1)])
+                        v = []
+                        for _ in range(ln):
+                            k = rnd.randint(0, rnd.choice([3, 300, kmax]) if kmax > 300 else kmax)
+                            f = (rnd.choice(FRAC64) * (q // 64)) if sh >= 6 and rnd.random() < 0.7 else rnd.randint(0, 29 * q // 64)
+                            x = min(k, kmax) * q + (f if rnd.random() < 0.5 else -f)
+                            if style == "neg" or (style == "mixed" and rnd.random() < 0.5):
+                                x = -x
+                            v.append(x)
+                        line = "R %s %d %d %d %d %d %s" % (ty, n, sh, into, i % 3, ln, " ".join(str(x) for x in v))
+                        out.append((line, ty, v, n, sh, into))
     return out
 
 
@@ -738,8 +944,11 @@ def extra(ctx, known):
         probes = []
         for ty in ("f64", "f32"):
             probes += table_probes(ctx.tier, ty, *tabs[ty])
+            probes += witness_probes(ty, tabs[ty][0], tabs[ty][1], ctx.tier)
         pres = run_parallel(rel, [p_line(c) for _, c in probes], 4 if ctx.tier == "thorough" else 8,
                             [tabs[c[0]][1][c[1]][c[2]] for _, c in probes])
+        wo_cfgs = writeout_configs(ctx.tier)
+        wo_res = {prof: run_lines(ctx.bins[prof], [c[0] for c in wo_cfgs]) for prof in PROFILES if prof in ctx.bins}
         tw_cfgs = [(ty, k, pre) for ty in ("f64", "f32") for k in range(0, (16 if ctx.tier == "quick" else 22) + 1)
                    for pre in ((0, 1, 2) if k % 2 == 0 or k <= 9 else (0,))]
         tw_res = {prof: run_lines(ctx.bins[prof], ["TW %s %d %d" % c for c in tw_cfgs]) for prof in PROFILES if prof in ctx.bins}
@@ -808,9 +1017,42 @@ def extra(ctx, known):
                                                 c[0], c[1], t[1] if ok else "?", TW_TOL[c[0]], t[2] if ok else "?", t[3] if ok else "?",
                                                 t[4:6] if ok else o),
                                     "profile": prof, "reproduce": "echo 'TW %s %d %d' | harness/target/%s/c04" % (c + (prof,))}})
+    # ---- the write-out of the inverse transform: nearest integers for entries of either sign, any fraction up to 29/64
+    wo_n = wo_bad = wo_neg = 0
+    for prof, outs in wo_res.items():
+        for (line, ty, v, n, sh, into), o in zip(wo_cfgs, outs):
+            q = 1 << sh
+            want = [(x + q // 2) // q for x in v] + [0] * (n - len(v) + (3 if into == 2 else 0))
+            t = o.split()
+            got = None
+            if t and t[0] == "R":
+                try:
+                    got = [int(x) for x in t[1:]]
+                except ValueError:
+                    got = None
+            wo_n += 1
+            wo_neg += sum(1 for x in v if x < 0 and x % q)
+            if got != want:
+                wo_bad += 1
+                if wo_bad <= 2:
+                    idx = next((j for j in range(min(len(want), len(got or []))) if got[j] != want[j]), -1)
+                    violations.append({
+                        "name": "writeout-%s" % hashlib.sha256((line + prof).encode()).hexdigest()[:10], "nofail": False,
+                        "payload": {"what": "FFT::<%s>: fft(v, %d), every entry of the spectrum multiplied by 2^-%d (exact), %s: the inverse "
+                                            "transform was handed the spectrum of the real sequence v[j] / %d, every entry of which is at most "
+                                            "29/64 away from an integer, and did not write out the nearest integers; products whose "
+                                            "floating-point error comes that close to 1/2 (the edge of the published table) come out wrong "
+                                            "the same way" % (ty, n, sh, ("fft_inv", "fft_inv_into on a non-zero destination of length n",
+                                                                          "fft_inv_into on a non-zero destination of length n + 3")[into], q),
+                                    "profile": prof, "first_wrong_index": idx,
+                                    "entry": ("%d / %d = %.6f" % (v[idx], q, v[idx] / q)) if 0 <= idx < len(v) else None,
+                                    "expected": want[idx] if idx >= 0 else "length %d" % len(want),
+                                    "got": (got[idx] if idx >= 0 else "length %d" % len(got)) if got is not None else o[:80],
+                                    "reproduce": "echo '%s' | harness/target/%s/c04" % (line if len(line) < 400 else line[:400] + " ...", prof)}})
     # ---- published table
     gate_n = gate_bad = stat_n = stat_bad = 0
-    stat_cells, marginal_seen, fftroute_seen = {}, {}, {}
+    gate_by_sign = {}
+    stat_cells, marginal_seen, sign_marginal_seen, fftroute_seen = {}, {}, {}, {}
     for (gate, c), o in zip(probes, pres):
         t = o.split()
         ty, ai, bi, lmode, swap, sign, ab, bb, route, pre, seed, smp = c
@@ -821,8 +1063,10 @@ def extra(ctx, known):
             L, la, lb, w, n, err, first, modfail = [int(x) for x in t[1:9]]
             bad = w > 0 or modfail != 0
         cell = "%s A=%d B=%d L=%d" % (ty, vals[ai], vals[bi], L)
+        cellkey = (ty, vals[ai], vals[bi])
         if gate:
             gate_n += 1
+            gate_by_sign[SIGNS[sign]] = gate_by_sign.get(SIGNS[sign], 0) + 1
             if bad:
                 gate_bad += 1
                 if len(violations) < 5:
@@ -830,10 +1074,15 @@ def extra(ctx, known):
                         "name": "published-%s" % hashlib.sha256(repr(c).encode()).hexdigest()[:10], "nofail": False,
                         "payload": {"what": "FFT::<%s>: wrong coefficient INSIDE the precision table published by the crate itself "
                                             "(rlib_fft::precision, read from the crate at run time): cell A=%d, B=%d claims exact "
-                                            "products up to length L=%d" % (ty, vals[ai], vals[bi], L),
+                                            "products up to length L=%d%s" % (
+                                                ty, vals[ai], vals[bi], L,
+                                                "" if sign == 0 else "; the operands have the cell's magnitudes with signs (%s), which the "
+                                                "property covers ('for positive and negative coefficients alike') and which is exact "
+                                                "on the reviewed tree" % SIGNS[sign]),
                                     "float": ty, "cell": [vals[ai], vals[bi], L], "len_a": la, "len_b": lb, "lengths": LMODES[lmode],
-                                    "operands_exchanged": bool(swap), "a_values": "[%d ..= %d]" % (max(vals[ai] - ab, 0), vals[ai]),
-                                    "b_values": "[%d ..= %d]" % (max(vals[bi] - bb, 0), vals[bi]), "call": P_ROUTES[route],
+                                    "operands_exchanged": bool(swap), "signs": SIGNS[sign],
+                                    "a_magnitudes": "[%d ..= %d]" % (max(vals[ai] - ab, 0), vals[ai]),
+                                    "b_magnitudes": "[%d ..= %d]" % (max(vals[bi] - bb, 0), vals[bi]), "call": P_ROUTES[route],
                                     "object": PRES[pre], "generator_seed": seed, "wrong_of_checked": "%d/%d" % (w, n),
                                     "max_abs_error": err, "first_wrong_index": first,
                                     "modular_check_of_all_coefficients_failed": bool(modfail),
@@ -842,8 +1091,10 @@ def extra(ctx, known):
             stat_n += 1
             if bad:
                 stat_bad += 1
-                if (ty, vals[ai], vals[bi]) in MARGINAL_CELLS and sign == 0 and swap == 0:
-                    marginal_seen.setdefault(cell, []).append(p_line(c))
+                if cellkey in MARGINAL_CELLS and sign == 0 and swap == 0:
+                    marginal_seen.setdefault(cellkey, []).append(p_line(c))
+                elif sign != 0 and sign in SIGN_MARGINAL.get(cellkey, ()):
+                    sign_marginal_seen.setdefault(cellkey, []).append(p_line(c))
                 elif route == 2 and sign == 0 and swap == 0 and L > 300000:
                     # inside the table's claim except for the route: a recorded finding (key fft-route-above-3e5), never silent
                     fftroute_seen.setdefault(cell, []).append(p_line(c))
@@ -853,7 +1104,11 @@ def extra(ctx, known):
                     stat_cells[k] = stat_cells.get(k, 0) + 1
     for (ty, A, B) in sorted(MARGINAL_CELLS):
         key = "published-cell-%d-%d" % (A, B)
-        if any(k.startswith("%s A=%d B=%d " % (ty, A, B)) for k in marginal_seen) and key in known:
+        if (ty, A, B) in marginal_seen and key in known:
+            known_keys.append(key)
+    for (ty, A, B) in sorted(SIGN_MARGINAL):
+        key = "published-cell-%d-%d-signs" % (A, B)
+        if (ty, A, B) in sign_marginal_seen and key in known:
             known_keys.append(key)
     if fftroute_seen:
         if "fft-route-above-3e5" in known:
@@ -874,16 +1129,24 @@ def extra(ctx, known):
            "plan_tables": {"objects_checked": sum(len(v) for v in tw_res.values()), "sizes": "2^0 .. 2^%d, f64 and f32, grown in one step / two steps / "
                            "through a product" % (16 if ctx.tier == "quick" else 22), "max_abs_deviation_from_cos_sin": tw_worst,
                            "tolerance": TW_TOL, "bad": tw_bad},
+           "inverse_transform_write_out": {"probes": wo_n, "wrong": wo_bad, "negative_entries_with_a_fraction": wo_neg,
+                                           "what": "fft(v, n), spectrum times 2^-sh, fft_inv / fft_inv_into (non-zero destinations of length n, "
+                                                   "n + 3): nearest integers of v[j] / 2^sh, fractions up to 29/64 on either side, f64 n <= %d "
+                                                   "with |v| < 2^31, f32 n <= 64" % (4096 if ctx.tier == "quick" else 65536)},
            "published_table": {"source": "rlib_fft::precision::{VALS_TO_CHECK, CORRECT_F64_BOUNDS, CORRECT_F32_BOUNDS} as compiled into the executor",
                                "frontier_cells": {ty: len(frontier(tabs[ty][1])) for ty in tabs},
                                "cells_probed": len({(c[0], c[1], c[2]) for _, c in probes}),
                                "max_length_probed": max([tabs[c[0]][1][c[1]][c[2]] for _, c in probes] + [0]),
-                               "gating_probes": gate_n, "gating_probes_wrong": gate_bad,
+                               "gating_probes": gate_n, "gating_probes_wrong": gate_bad, "gating_probes_by_sign_mode": gate_by_sign,
                                "statistics_probes": stat_n, "statistics_probes_wrong": stat_bad,
                                "statistics_wrong_by_cell": stat_cells,
                                "cells_failing_inside_their_literal_claim_on_the_reviewed_tree": {
                                    "listed": ["%s A=%d B=%d" % m for m in sorted(MARGINAL_CELLS)],
-                                   "wrong_this_run": marginal_seen},
+                                   "wrong_this_run": {"%s A=%d B=%d" % k: v for k, v in sorted(marginal_seen.items())}},
+                               "cell_sign_mode_combinations_failing_on_the_reviewed_tree": {
+                                   "listed": {"%s A=%d B=%d" % k: [SIGNS[x] for x in sorted(v)] for k, v in sorted(SIGN_MARGINAL.items())},
+                                   "wrong_this_run": {"%s A=%d B=%d" % k: {"probes_wrong": len(v), "first": v[:4]}
+                                                      for k, v in sorted(sign_marginal_seen.items())}},
                                "fft_route_wrong_above_3e5_this_run": fftroute_seen}}
     return {"coverage": cov, "violations": violations, "known": known_keys}
 
@@ -905,12 +1168,18 @@ MANIFEST = {
             "convolution). On every run the binary64 instance (Coq primitive floats, fed the implementation's own twiddle table through the "
             "verif hook) is compared with the Rust crate bit for bit on fft outputs and exactly on all integer outputs over call histories "
             "(reuse after growth, *_into on non-zero destinations, lengths around powers of two, boundary coefficients of both signs, "
-            "inverse transform on a second object that is fresh / smaller / cloned, aliased operands), and "
-            "the integer outputs are compared in Coq with a direct integer convolution. c04_rounding_partial: the floating-point "
+            "inverse transform on a second object that is fresh / smaller / cloned, aliased operands, the inverse transform "
+            "handed an exactly scaled spectrum whose entries are up to 29/64 away from integers - negative and positive), and "
+            "the integer outputs are compared in Coq with a direct integer convolution (scaled spectra: with the nearest integers). "
+            "c04_rounding_partial: the floating-point "
             "rounding-error bound inside the envelope is NOT proved; it is examined by search only (implementation against an exact i128 "
             "schoolbook convolution and a modular evaluation of every coefficient, at the boundary max^2*max(len) <= 1e12, f32: <= 1e3, "
-            "and at the frontier cells of the table the crate publishes in rlib_fft::precision, read from the crate at run time). Known finding unequal-lengths: the literal "
-            "envelope max^2*min(len) <= 1e12 is violated for very unequal lengths; re-confirmed on every run.",
+            "and at the frontier cells of the table the crate publishes in rlib_fft::precision, read from the crate at run time, with "
+            "non-negative operands AND five sign modes that all gate, every coefficient negative among them). Known finding unequal-lengths: the literal "
+            "envelope max^2*min(len) <= 1e12 is violated for very unequal lengths; re-confirmed on every run. Findings inside the published "
+            "table on the reviewed tree (statistics, announced only when listed in known_findings.txt, witnesses re-run on every run): "
+            "two cells fail inside their literal non-negative claim (5e6 x 5e5, 1e5 x 1e4) and the four cells whose transposed cell "
+            "claims less fail once one operand is negated (e.g. multiply([-1e7; 10], [5e6; 10]), multiply([-50000; 299999], [5000; 300000])).",
     "level_note": "proof, partial: shape, history independence (bit-exact, all instances) and algebraic exactness are proved for the "
                   "model; the rounding envelope is search only. Trusted: Coq kernel + vm_compute (primitive floats only in executed "
                   "cases, never in a theorem); the Rust executor and the Python case printer; libm sin/cos enter through the "
